@@ -28,6 +28,7 @@ type ZZModelReader struct {
 	Deterministic bool // always serve as many rows as fit (no chunking choice)
 	FailAt     int  // if >= 0: once FailAt rows were delivered, Read fails
 	FailWith   error // the error returned at FailAt (default ZZErrUpstream)
+	FailWithRows bool // the failing Read may also report rows (n > 0 together with the error), as ScanReader does
 	PanicAt    int  // if > 0: once PanicAt-1 rows were delivered, Read panics
 	PanicValue interface{}
 	Panicked   bool
@@ -68,6 +69,18 @@ func (m *ZZModelReader) Read(ctx context.Context, out frame.Frame) (int, error) 
 			m.final = m.FailWith
 		}
 		return 0, m.final
+	}
+	if m.FailWithRows && m.FailAt >= 0 && m.FailAt-m.pos <= out.Len() && m.FailAt > m.pos && zz.AnyBool(m.Tag+"_errWithRows") {
+		// the rows up to the failure point arrive together with the error
+		n := m.FailAt - m.pos
+		frame.Copy(out, frame.Slices(m.Keys[m.pos:m.pos+n], m.Vals[m.pos:m.pos+n]))
+		m.pos += n
+		m.final = ZZErrUpstream
+		if m.FailWith != nil {
+			m.final = m.FailWith
+		}
+		zz.Reach("upstream error together with rows")
+		return n, m.final
 	}
 	rem := len(m.Keys) - m.pos
 	if m.FailAt >= 0 && m.FailAt-m.pos < rem {
